@@ -46,7 +46,7 @@ def part_a(args):
 
 
 def versions(maxlen):
-    out = []
+    out = [""]  # the empty explicit version is a version too (name "mod:fn#"), distinct from "no version"
     for n in range(1, maxlen + 1):
         for t in itertools.product(SIGMA, repeat=n):
             out.append("".join(t))
@@ -111,6 +111,7 @@ def _b_child(root, vs, backend):
                 lf = m.list_memoized_functions(cl)
                 obs["list_functions"] = sorted(x.qualified_name for x in lf)
                 obs["qn"] = f.fn_reference().qualified_name
+                obs["qn_expected"] = ("mclu::" if cl else "") + "mvfb.a:fv_%d_%s#%s" % (i, "c" if cl else "d", v)
             except Exception as e:
                 import traceback
 
@@ -143,6 +144,8 @@ def part_b(args):
             bad = ("memento-query", "memento() found nothing")
         elif obs["list_mementos"] != 1:
             bad = ("list-mementos", "list_mementos() returned %d entries" % obs["list_mementos"])
+        elif obs["qn"] != obs["qn_expected"]:
+            bad = ("qualified-name", "the function is named %r, cluster / module / function / version give %r" % (obs["qn"], obs["qn_expected"]))
         elif obs["list_functions"] != [obs["qn"]]:
             bad = ("list-functions", "list_memoized_functions() = %r, expected [%r]" % (obs["list_functions"], obs["qn"]))
         if bad:
@@ -158,11 +161,20 @@ def part_b(args):
 # ---------------------------------------------------------------------------------------------
 
 STEPS = ["edit", "bump", "remove", "rename", "recluster", "plain", "restore"]
+STEPS_MODB = ["edit", "bump", "remove", "break-import", "restore"]  # callee in a second module
 
 
 def base_prog(callee_kind, cluster, argpass=False):
+    if argpass == "modb":
+        # the callee lives in a second module b of the package (referenced as b.D)
+        R = mkfunc("R", kind="explicit", version="1", calls=[call("D", "modattr")], rich=False, cluster=cluster)
+        D = mkfunc("D", kind="explicit" if callee_kind.startswith("explicit") else callee_kind, module="b",
+                   version={"explicit": "d1", "explicit-empty": ""}.get(callee_kind), rich=False, cluster=cluster)
+        return {"funcs": [R, D], "vars": {}}
     R = mkfunc("R", kind="explicit", version="1", calls=[call("D")], rich=False, cluster=cluster)
-    D = mkfunc("D", kind=callee_kind, version="d1" if callee_kind == "explicit" else None, rich=False, cluster=cluster)
+    # "explicit-empty": the callee's explicit version is the empty string
+    D = mkfunc("D", kind="explicit" if callee_kind.startswith("explicit") else callee_kind,
+               version={"explicit": "d1", "explicit-empty": ""}.get(callee_kind), rich=False, cluster=cluster)
     if argpass:
         # the evolving function is handed to a middle function as an ARGUMENT: stored argument lists name its version
         R["calls"] = [{"target": "M", "form": "passfn", "fn": "D", "arg": 1}]
@@ -182,6 +194,11 @@ def apply_step(P, step, base):
     D = fm.get(tgt)
     if step == "restore":
         return copy.deepcopy(base)
+    if step == "break-import":
+        if Q.get("b_broken") or not any(f["module"] == "b" for f in Q["funcs"]):
+            return None
+        Q["b_broken"] = True
+        return Q
     if D is None:
         return None
     if step == "edit":
@@ -251,8 +268,11 @@ def _observe(a, m, cluster):
                     refs = [(i.fn_reference.qualified_name, i.fn_reference.external) for i in r.invocation_metadata.invocations]
                     refs += [(d.qualified_name, d.external) for d in r.function_dependencies]
                     cur = {}
-                    for n in dir(a):
-                        o = getattr(a, n)
+                    import sys as _sys
+
+                    for mod_, n in [(a, n) for n in dir(a)] + [(_sys.modules["vfp.b"], n) for n in dir(_sys.modules.get("vfp.b", None) or object())
+                                                                if "vfp.b" in _sys.modules]:
+                        o = getattr(mod_, n, None)
                         if hasattr(o, "fn_reference") and hasattr(o, "qualified_name_without_version"):
                             try:
                                 cur[o.fn_reference().qualified_name] = True
@@ -308,7 +328,7 @@ def part_c(args):
         progen.write_pkg(P, os.path.join(top, "e0"))
         o0 = farm.fork_call(_c_child, os.path.join(top, "e0"), store, cluster, True)
         want = o0["value"]
-        if isinstance(want, str) and want.startswith("EXC") or o0["bodies"] != (["R", "M", "D"] if argpass else ["R", "D"]):
+        if isinstance(want, str) and want.startswith("EXC") or o0["bodies"] != (["R", "M", "D"] if argpass is True else ["R", "D"]):
             raise HarnessError("initial run of the caller/callee pair is wrong: %s" % (o0,))
         prev = o0
         for k, st in enumerate(steps):
@@ -322,7 +342,7 @@ def part_c(args):
             bad = judge_c(o, want, prev, o0, "recluster" in steps[:k + 1])
             prev = o
             if bad:
-                sig = "evolve|%s|callee:%s%s|step:%s|%s" % (_cl(cluster), callee_kind, "+as-argument" if argpass else "", st, bad[0])
+                sig = "evolve|%s|callee:%s%s|step:%s|%s" % (_cl(cluster), callee_kind, {True: "+as-argument", "modb": "+in-second-module"}.get(argpass, ""), st, bad[0])
                 out["violations"].append((sig, bad[1] + "\ncallee kind=%s cluster=%s passed-as-argument=%s history=%s" % (callee_kind, cluster, argpass, list(steps[:k + 1])),
                                           {"part": "C", "callee": callee_kind, "cluster": cluster, "steps": list(steps[:k + 1]), "argpass": argpass}))
                 break
@@ -405,7 +425,7 @@ def run(ctx):
     ctx.rule = ("A: all version strings over %s up to length %d x clusters {none, c, c.d, c:d} x modules {m, p.m} x functions "
                 "{f, C.f}; B: versions of length <= %d (plus all length-3 strings containing ':' or '#' in thorough) as real "
                 "explicit versions in default and named clusters on memory and filesystem backends; C: all step sequences of "
-                "length <= 2 (thorough: 3, and 4 in the default cluster) over %s for callee kinds {memento, explicit} x {default, named, named with a name that is a prefix of the module name} cluster x {callee called, callee handed to a middle function as an argument}, cross-process and in-process; listings may only grow. "
+                "length <= 2 (thorough: 3, and 4 in the default cluster) over %s for callee kinds {memento, explicit, explicit with the empty version} x {default, named, named with a name that is a prefix of the module name} cluster x {callee called, callee handed to a middle function as an argument}, cross-process and in-process; listings may only grow. "
                 "distinct = version strings / (version, cluster, backend) / evolution histories."
                 % (SIGMA, 4 if thorough else 3, 2, STEPS))
     ctx.assumptions += ["cluster names do not contain '::'", "module and function names are dotted Python identifiers"]
@@ -419,11 +439,15 @@ def run(ctx):
     bch = [vb[i:i + 12] for i in range(0, len(vb), 12)]
     ctx.merge(pmap(part_b, [(c, be) for c in bch for be in ("fs", "mem")], chunksize=1))
     tasks = []
-    for kind in ("memento", "explicit"):
-        for cluster in (None, "vfc", "vf"):  # "vf" is a prefix of the module name vfp.a
+    for kind in ("memento", "explicit", "explicit-empty"):
+        for cluster in (None, "vfc", "vf"):
+            if kind == "explicit-empty" and cluster == "vf":
+                continue  # "vf" is a prefix of the module name vfp.a
             for argpass in (False, True):
                 for n in (1, 2, 3, 4) if thorough else (1, 2):
                     if n == 2 and not thorough and (cluster == "vf" or argpass):
+                        continue
+                    if n >= 3 and kind == "explicit-empty":
                         continue
                     if n == 3 and (cluster == "vf" or (argpass and kind == "explicit")):
                         continue
@@ -432,6 +456,10 @@ def run(ctx):
                     for steps in itertools.product(STEPS, repeat=n):
                         tasks.append((kind, cluster, steps, "xproc", argpass))
                         tasks.append((kind, cluster, steps, "inproc", argpass))
+            if kind != "explicit-empty":
+                for n in (1, 2):
+                    for steps in itertools.product(STEPS_MODB, repeat=n):
+                        tasks.append((kind, cluster, steps, "xproc", "modb"))
     ctx.merge(pmap(part_c, tasks, chunksize=2))
     ctx.extra["parse_strings"] = len(va) * 16
     ctx.extra["store_versions"] = len(vb)
@@ -450,7 +478,7 @@ def replay(ctx, art):
     elif a["part"] == "B":
         r = part_b(([a["version"]], a["backend"]))
     else:
-        r = part_c((a["callee"], a["cluster"], tuple(a["steps"]), "inproc" if a.get("inproc") else "xproc", bool(a.get("argpass"))))
+        r = part_c((a["callee"], a["cluster"], tuple(a["steps"]), "inproc" if a.get("inproc") else "xproc", a.get("argpass") if a.get("argpass") == "modb" else bool(a.get("argpass"))))
     for v in r["violations"]:
         print(v[0], "\n", v[1])
     print("REPLAY property=C12 result=%s" % bool(r["violations"]))
